@@ -73,10 +73,69 @@ def scenarios(tier, seed):
     if tier == "thorough":
         # the full product does not fit the time budget: rotate a quarter of it by VERIF_SEED
         out = [d for i, d in enumerate(out) if i % 4 == seed % 4]
+    # the model-level entry points over the same joint: predict_probability (row-wise VE) and get_state_probability
+    for sname in ["pair", "chain3", "fork3", "collider3", "full3", "iso3", "diamond", "collchild", "twopairs"]:
+        nodes, parents = C.SHAPES[sname]
+        for card in C.card_options(nodes, tier)[:2 if tier == "quick" else 4]:
+            for r in range(1, len(nodes)):
+                for cols in itertools.combinations(nodes, r):
+                    k += 1
+                    if tier == "quick" and k % 3:
+                        continue
+                    rows = [{e: (k + i + j) % card[e] for i, e in enumerate(cols)} for j in range(2)]
+                    rows.append(dict(rows[0]))
+                    base = dict(nodes=nodes, parents=parents, card=card, states=C.STATE_STYLES[k % len(C.STATE_STYLES)], names=["str", "long"][k % 2],
+                                hashseed=k % 2, cost=len(C.sym_names(dict(nodes=nodes, parents=parents, card=card))))
+                    if len(nodes) == 4 and tier == "quick":
+                        base.update(fixed_cpds=[nodes[(k + 1) % 4], nodes[(k + 2) % 4]], fixed_seed=k)
+                    out.append(dict(base, family="bn.predict_probability", mode="pp", cols=list(cols), rows=rows))
+                    out.append(dict(base, family="bn.get_state_probability", mode="gsp", cols=list(cols), rows=rows[:1]))
     return out
 
 
+def run_model_level(desc, M):
+    import pandas as pd
+    M.declare(C.sym_names(desc))
+    tabs = C.make_tables(desc, M, positive=False)
+    jt = C.joint_table(desc, tabs)
+    nodes, card = desc["nodes"], desc["card"]
+    model, nm = C.build_bn(desc, M, tabs)
+    cols = desc["cols"]
+    if desc["mode"] == "gsp":
+        row = desc["rows"][0]
+        got = model.get_state_probability({nm[e]: C.sname(desc, e, s) for e, s in row.items()})
+        M.eq(got, C.marginal(desc, jt, row), "get_state_probability equals the marginal of the CPD-product joint")
+        return
+    pes = []
+    for row in desc["rows"]:
+        pe = C.marginal(desc, jt, row)
+        M.assume(pe > 0, "P(evidence row) > 0")
+        M.mark_pos(pe)
+        pes.append(pe)
+    col_data = {}
+    for e in cols:
+        vals = [C.sname(desc, e, row[e]) for row in desc["rows"]]
+        ser = pd.Series([None] * len(vals), index=[5, 7, 9][:len(vals)], dtype=object)
+        for i, v in enumerate(vals):
+            ser.iloc[i] = v
+        col_data[nm[e]] = ser
+    data = pd.DataFrame(col_data)
+    res = model.predict_probability(data)
+    missing = [v for v in nodes if v not in cols]
+    want_cols = {f"{nm[v]}_{C.sname(desc, v, s)}" for v in missing for s in range(card[v])}
+    M.check(set(res.columns) == want_cols, "predict_probability: one column per (missing variable, state name)", detail=str(list(res.columns)))
+    M.check(list(res.index) == list(data.index), "predict_probability: index of the data kept", detail=str(list(res.index)))
+    for i, row in enumerate(desc["rows"]):
+        for v in missing:
+            for s in range(card[v]):
+                cn = f"{nm[v]}_{C.sname(desc, v, s)}"
+                if cn in res.columns:
+                    M.eq(res[cn].iloc[i] * pes[i], C.marginal(desc, jt, {**row, v: s}), "predict_probability: P(missing = state | row)")
+
+
 def run(desc, M):
+    if desc.get("mode") in ("pp", "gsp"):
+        return run_model_level(desc, M)
     from pgmpy.factors.discrete import TabularCPD
     from pgmpy.inference import VariableElimination
     names = C.sym_names(desc)
